@@ -38,10 +38,10 @@ SPEC = dict(
         "the outstanding-request table is abstracted to a counter (the table itself: C07)",
     ],
     assumptions=[
-        "the application calls connectToServer only while disconnected; automatic reconnection (a timer in QXmppClient) is disabled and not modelled",
+        "connectToServer may be called in any state (6235115: a live socket is aborted first); automatic reconnection is modelled as the event reconnectTick (timer armed by socket errors when autoReconnect is on; back-off delays not modelled)",
         "OUT OF MODEL AND HARNESS: DNS/SRV address lists and the TryNext branch of _q_socketDisconnected (explicit host/port, one address; "
         "the address-list indices have no model field), a location on the inline <enabled/> of bind2, application-initiated disconnectFromServer(), carbons (m_enabled/m_requested), FAST m_tokenChanged, streamFrom, authenticationMethod (no model field; "
-        "per_connection_reset says nothing about them), timers (keep-alive ping, reconnection)",
+        "per_connection_reset says nothing about them), the keep-alive TIMEOUT and the reconnect back-off delays",
         "reads: one element per read, or the listed multi-element segments (header+features, header+stanza, stream error+close); elements that "
         "follow, in the same read, an element on which the client disconnects are not modelled; a cut in the middle of an element is modelled "
         "as 'half an element buffered, then loss' (the buffer content itself is not modelled: resetIncomingState() is exercised, its effect on "
@@ -57,8 +57,10 @@ SPEC = dict(
         "per_connection_reset covers the 12 negotiation fields of negView (listener, streamIdSet, streamVersionSet, encrypted, headerSeen, wedged, "
         "authenticated, sessionStarted, smEnabled, smResumed, ackEnabled, redirect) + bind2Bound; NOT csiAvail/"
         "bindAvail/smAvail (separate theorem avail_fields_written_before_use) and not the C++ state without a model field listed above",
-        "'connected at most once per connection' needs one conformance hypothesis: the server sends neither a stream header nor features into an "
-        "established session (without it the property is false: openSession is not guarded, its Q_ASSERT is compiled out in release builds)",
+        "'connected at most once per connection' needs the server-conformance hypothesis noNegotiationInSession: no stream header / features into an "
+        "established session. A conforming server can never violate it (RFC 6120: header and features only answer a stream restart, which the client performs only "
+        "during negotiation); without it the statement fails only against a misbehaving server (openSession is not guarded, its Q_ASSERT is compiled out) - a "
+        "robustness gap, not a violation of C10, no finding",
         "'isConnected() means a session was established on this connection' holds for every history; 'isConnected() implies authenticated' is "
         "proved under the named hypothesis demandsAuth (features received while unauthenticated always lead into STARTTLS or an authentication "
         "exchange the configuration uses); an example shows the hypothesis is necessary",
@@ -77,8 +79,9 @@ SPEC = dict(
                "connected are reported without a disconnected (socket loss) in between; every cut point of the SASL+bind flow reports "
                "nothing until the last element.",
     level_note="Proved about the hand-written model; model-to-code tie is differential (every policy x every cut point, pairs and triples "
-               "of attempts). The four former findings (legacy login, bind2Bound leak, see-other-host inside a session / over TLS) are fixed "
-               "in the tree (7771c2d, 7a677f2, e363fe9, 7c60ff5, a739aa9); their witnesses are replayed first. A white space keep-alive used to end the connection "
+               "of attempts). The eight former findings are fixed in the tree (7771c2d legacy login never completes; 7a677f2 bind2 result leaks into the next "
+               "session; e363fe9 see-other-host leaves a stale session / hangs over TLS; 7c60ff5, a739aa9 CSI availability of an earlier connection; "
+               "8d68c05 white space keep-alive; dcf656f resume location; 6235115 connectToHost() on a live socket); their witnesses are replayed first. A white space keep-alive used to end the connection "
                "even inside an established session (C10:whitespace-keepalive-ends-connection, fixed by 8d68c05; theorem "
                "whitespace_keepalive_is_ignored, witness replayed). Where the next attempt goes: "
                "next_attempt_after_stream_end_targets_configured_host, connect_target_spec. The resume location used to outlive its stream (C10:next-attempt-targets-stale-resume-location, fixed by dcf656f; theorem resume_location_belongs_to_the_enabled_stream, witness replayed).",
